@@ -438,6 +438,22 @@ def run(chk, tier, only_rule=None):
             site = U.site(fn, 'nparams=%d' % len(fn['params']))
             if calls or dele: chk.ok('R11.3', site, {'function': fn['q'], 'evaluates': 'root_->validate' if calls else 'delegates'})
             else: chk.fail('R11.3', site, fn['file'], fn['l'], 'json_schema::%s does not evaluate root_->validate' % name, None, fn['q'])
+            if name == 'is_valid' and calls and not dele:
+                # the verdict is "no error was reported": the walk state a validator returns only says whether to go on (several validators
+                # report and return advance), so it cannot stand in for the count
+                rets = [r for b in bodies[:1] for r in A.walk_no_lambda(b) if r.get('k') == 'ReturnStmt' and r.get('val') is not None]
+                al = A.pure_aliases(fn['body'], allow_const_calls=True)
+                def counts(e, depth=0):
+                    for y in A.walk(e):
+                        if A.is_call(y) and A.callee_name(y) == 'error_count': return True
+                        if y.get('k') == 'DeclRefExpr' and y.get('id') in al and depth < 3 and counts(al[y['id']], depth + 1): return True
+                    return False
+                site2 = U.site(fn, 'verdict nparams=%d' % len(fn['params']))
+                badr = [r for r in rets if not counts(r['val'])]
+                if rets and not badr: chk.ok('R11.3', site2, {'verdict': 'reporter.error_count() == 0'})
+                else:
+                    chk.fail('R11.3', site2, fn['file'], (badr[0] if badr else fn).get('l'), 'json_schema::is_valid answers `%s`, not from the number of errors the reporter recorded: a validator that reports an '
+                             'error and lets the walk go on (a `false` subschema does) is then taken for success' % (A.text(badr[0]['val'])[:50] if badr else '?'), None, fn['q'])
     # ---- R11.4
     n4 = 0; seen = set()
     for fn in facts.functions:
